@@ -183,6 +183,20 @@ def _case(draw, maxlen):
         if op["op"] == "same":
             op["op"] = "generate"
             op["spec"] = target
+            if draw(st.booleans()):
+                # a near copy of the target: same seed and generator, another start cell / endpoint option / maze count
+                v = L.json_copy(target)
+                v.pop("filters", None)
+                how = draw(st.sampled_from(["start_coord", "endpoint", "n_mazes", "name"]))
+                if how == "start_coord" and v["ctor"] != "gen_wilson":
+                    v["kwargs"] = {**v.get("kwargs", {}), "start_coord": [draw(st.integers(0, v["grid_n"] - 1)), draw(st.integers(0, v["grid_n"] - 1))]}
+                elif how == "endpoint":
+                    v["endpoint"] = {"deadend_start": draw(st.booleans()), "endpoints_not_equal": draw(st.booleans())}
+                elif how == "n_mazes":
+                    v["n_mazes"] = v["n_mazes"] + draw(st.integers(1, 3))
+                else:
+                    v["name"] = v["name"] + "2"
+                op["spec"] = v
     return {"target": target, "history": hist, "route": route, "fresh_cfg": draw(st.booleans())}
 
 
